@@ -113,7 +113,7 @@ def oracle_order(args):
     return not bad, out, {"ratio": "about 4 (>= 3)"}, "error does not shrink fourfold when dt is halved: " + ", ".join(bad)
 
 
-ORACLES = {"reverse": oracle_reverse, "order": oracle_order}
+ORACLES = {"whole_run": rc.oracle_whole_run, "reverse": oracle_reverse, "order": oracle_order}
 
 
 def run(ctx):
